@@ -6,3 +6,5 @@ TRUSTED = ["typestate model of byte streams / PIL images: open() and io.BytesIO(
 ASSUMPTIONS = []
 NOT_DECIDED = ["textual equality of each iterated frame with format(image, spec) of that frame (dataflow argument only, DESIGN 5.C11)",
                "URL-sourced images: temporary file lifetime (unit not online yet)"]
+
+from .C04 import u_renderer_frame  # noqa: F401,E402  (size setting restored by _renderer on every exit)
